@@ -6,6 +6,7 @@ import (
 	"go/token"
 	"go/types"
 	"os"
+	"path"
 	"regexp"
 	"strings"
 )
@@ -434,4 +435,116 @@ func bodyMatcherTestsElementType(c *Ctx, rule string) {
 	}
 	c.check(bad == "" && ntrue > 0, rule, key, c.pos(lit.Pos()), fmt.Sprintf("%d accepting path(s), each after n.Type == html.ElementNode", ntrue),
 		fmt.Sprintf("the matcher built by htmlfind.Element accepts a node on a path that did not test its Type (%s): a text or comment node whose text is `body` is taken for the body element, the reload script is appended to it and never rendered", bad))
+}
+
+// reloadScriptSrcIsRooted: C20.R16 — the script element the proxy appends names the script by an ABSOLUTE path (it
+// begins with "/"): the page it is appended to may be any page of the proxied application, and a relative src is
+// resolved against that page's URL — below the root (/blog/2024/post) the browser asks the application for
+// /blog/2024/_templ/reload/script.js, gets a 404, and the page never reloads.
+func reloadScriptSrcIsRooted(c *Ctx, rule string) {
+	p := c.pkg("cmd/templ/generatecmd/proxy")
+	info := p.TypesInfo
+	var eval func(e ast.Expr, depth int) (string, bool)
+	eval = func(e ast.Expr, depth int) (string, bool) {
+		if s, ok := constString(info, e); ok {
+			return s, true
+		}
+		if depth > 4 {
+			return "", false
+		}
+		switch v := ast.Unparen(e).(type) {
+		case *ast.Ident:
+			if pv, ok := info.ObjectOf(v).(*types.Var); ok && pv.Parent() == p.Types.Scope() {
+				// a package-level variable with an initialiser that is never assigned again
+				var init ast.Expr
+				assigned := false
+				for _, f := range p.Syntax {
+					ast.Inspect(f, func(n ast.Node) bool {
+						switch s := n.(type) {
+						case *ast.ValueSpec:
+							for i, nm := range s.Names {
+								if info.Defs[nm] == types.Object(pv) && i < len(s.Values) {
+									init = s.Values[i]
+								}
+							}
+						case *ast.AssignStmt:
+							for _, l := range s.Lhs {
+								if id, ok := ast.Unparen(l).(*ast.Ident); ok && info.ObjectOf(id) == types.Object(pv) {
+									assigned = true
+								}
+							}
+						}
+						return true
+					})
+				}
+				if init != nil && !assigned {
+					return eval(init, depth+1)
+				}
+			}
+		case *ast.BinaryExpr:
+			if v.Op == token.ADD {
+				a, ok1 := eval(v.X, depth+1)
+				b, ok2 := eval(v.Y, depth+1)
+				return a + b, ok1 && ok2
+			}
+		case *ast.CallExpr:
+			if fn := calleeOf(info, v); fn != nil && (fullName(fn) == "path.Join" || fullName(fn) == "path/filepath.Join") {
+				var parts []string
+				for _, a := range v.Args {
+					s, ok := eval(a, depth+1)
+					if !ok {
+						return "", false
+					}
+					parts = append(parts, s)
+				}
+				return path.Join(parts...), true
+			}
+		}
+		return "", false
+	}
+	n := 0
+	for _, fd := range allFuncDecls(p) {
+		if fd.Body == nil {
+			continue
+		}
+		ast.Inspect(fd.Body, func(x ast.Node) bool {
+			cl, ok := x.(*ast.CompositeLit)
+			if !ok {
+				return true
+			}
+			if t := info.TypeOf(cl); t == nil || !strings.HasSuffix(t.String(), "net/html.Attribute") {
+				return true
+			}
+			var keyE, valE ast.Expr
+			for i, el := range cl.Elts {
+				if kv, ok := el.(*ast.KeyValueExpr); ok {
+					switch types.ExprString(kv.Key) {
+					case "Key":
+						keyE = kv.Value
+					case "Val":
+						valE = kv.Value
+					}
+				} else if i == 1 {
+					keyE = el
+				} else if i == 2 {
+					valE = el
+				}
+			}
+			if k, ok := constString(info, keyE); !ok || k != "src" || valE == nil {
+				return true
+			}
+			n++
+			key := funcKey(p, fd) + "|script-src-is-rooted"
+			s, ok := eval(valE, 0)
+			if !ok {
+				c.undec(rule, key, c.pos(cl.Pos()), "the src of the appended script ("+types.ExprString(valE)+") is not a constant path")
+				return true
+			}
+			c.check(strings.HasPrefix(s, "/") || strings.Contains(s, "://"), rule, key, c.pos(cl.Pos()), fmt.Sprintf("src=%q", s),
+				fmt.Sprintf("the appended reload script has src=%q, a path relative to the page it is appended to: on any page below the root the browser asks the proxied application for <page directory>/%s, which does not exist — the script never loads and the page never reloads", s, s))
+			return true
+		})
+	}
+	c.count("script_src_attributes", n)
+	c.floor(rule, 1)
 }
